@@ -56,6 +56,28 @@ Proof.
   - apply recomputes_iff. repeat split; try assumption. now exists f.
 Qed.
 
+(* the same for a TARGET that is not fresh (roll-back into a preconditioner that has already trained): whatever the ranks held
+   before, every rank ends with the saved factors and recomputes its second-order data - recomputation does not depend on
+   whether second-order data already exists *)
+Theorem neox_rollback_restores_m1 : forall W sl held target fw, wf_world W sl ->
+  (forall r l, r < W -> In l (sl r) -> fw r (l_name l) = r /\ l_inv l < W /\ In l (sl (l_inv l))) ->
+  (forall r l, r < W -> In l (sl r) -> held r (l_name l) = held (l_inv l) (l_name l) /\ held r (l_name l) <> None) ->
+  forall r l, r < W -> In l (sl r) ->
+    load fw sl (gathered W sl held) target r (l_name l) = held r (l_name l) /\
+    recomputes fw sl (gathered W sl held) true r (l_name l) = true.
+Proof.
+  intros W sl held target fw Hwf Hm1 Hrep r l Hr Hl.
+  destruct (Hm1 r l Hr Hl) as (Hfw & Hiw & Hown). destruct (Hrep r l Hr Hl) as (Heq & Hne).
+  destruct (held r (l_name l)) as [f|] eqn:Ef; [|congruence].
+  assert (Hg : dict_get (gathered W sl held) (l_name l) = Some f).
+  { apply (gathered_state_complete_l W sl held r l f Hwf Hr Hl Hiw Hown). now rewrite <- Heq. }
+  assert (Hex : existsb (fun l0 => Nat.eqb (l_name l0) (l_name l)) (sl r) = true).
+  { apply existsb_exists. exists l. split; [exact Hl|apply Nat.eqb_refl]. }
+  split.
+  - exact (proj1 (load_restores_on_factor_workers_l fw sl _ target r (l_name l) f Hg) Hex Hfw).
+  - apply recomputes_iff. repeat split; try assumption. now exists f.
+Qed.
+
 (* M > 1: ranks of a stage that are not factor workers keep what they had (for a
    freshly constructed preconditioner: nothing), so a factor that every model-parallel
    peer maintains is NOT restored there: resuming is not equivalent (known finding D7) *)
@@ -71,3 +93,4 @@ Print Assumptions dir_one_file_per_layer.
 Print Assumptions load_restores_on_factor_workers.
 Print Assumptions recompute_on_factor_workers.
 Print Assumptions neox_resume_restores_m1.
+Print Assumptions neox_rollback_restores_m1.
